@@ -31,7 +31,8 @@ inductive Cond where
   | or (a b : Cond)             -- `a || b`
   | not (c : Cond)              -- `!(c)`
   | cmpE (op : COp) (e : GExpr) (b : Atom) (eLeft : Bool)   -- `(e) ⋈ b` / `b ⋈ (e)`, e a quiet tree (stage 12)
-  | truthE (e : GExpr)          -- `if (e)` for a quiet tree
+  | truthE (e : GExpr)          -- `if (e)` for a tree
+  | cmpR (op : COp) (e : GExpr) (y : Bool) (eLeft : Bool)   -- a tree against X (`y = false`) or Y (stage 13)
   deriving Repr, DecidableEq, Inhabited
 
 inductive SStmt where
@@ -251,6 +252,13 @@ def cmpETest (g : GState) (op : COp) (e : GExpr) (b : Atom) (eLeft negate : Bool
     (treeLines e ++ [.ins .CMP (some b)] ++ (branchInstr { g with flags := none } (finalOp op negate (!eLeft)) label).1,
      (branchInstr { g with flags := none } (finalOp op negate (!eLeft)) label).2)
 
+/-- a tree against X or Y: the tree's value goes to the scratch cell, the register is compared with it
+    (`STA cctmp ; CPX cctmp`); the register is the left operand of the compare -/
+def cmpRTest (g : GState) (op : COp) (e : GExpr) (y eLeft negate : Bool) (label : Lbl) : List GLine × GState :=
+  (treeLines e ++ [.ins .STA (some tmp), .ins (if y then .CPY else .CPX) (some tmp)] ++
+     (branchInstr { g with flags := none } (finalOp op negate eLeft) label).1,
+   (branchInstr { g with flags := none } (finalOp op negate eLeft) label).2)
+
 /-- `if (e)`: the flags describe A after an arithmetic operation, not after a shift (`CMP #0` then) -/
 def truthETest (g : GState) (e : GExpr) (negate : Bool) (label : Lbl) : List GLine × GState :=
   (treeLines e ++ (if e.topArithm then [] else [.ins .CMP (some (.const 0))]) ++ [.br (if negate then .BEQ else .BNE) label],
@@ -266,6 +274,7 @@ def genCond (g : GState) : Cond → Bool → Lbl → List GLine × GState
   | .not c, negate, label => genCond g c (!negate) label
   | .cmpE op e b eLeft, negate, label => cmpETest g op e b eLeft negate label
   | .truthE e, negate, label => truthETest g e negate label
+  | .cmpR op e y eLeft, negate, label => cmpRTest g op e y eLeft negate label
   | .and a b, true, label =>
     let r1 := genCond g a true label
     let r2 := genCond r1.2 b true label
@@ -384,8 +393,9 @@ def CondOK : Cond → Bool
   | .and a b => CondOK a && CondOK b
   | .or a b => CondOK a && CondOK b
   | .not c => CondOK c
-  | .cmpE op e b _ => e.ok && quietE {} e && !(op.ordered && RA.isZero (.of b))
-  | .truthE e => e.ok && quietE {} e
+  | .cmpE op e b _ => e.ok && !(op.ordered && RA.isZero (.of b))
+  | .truthE e => e.ok
+  | .cmpR _ e _ _ => e.ok && e.tmpFree
   | _ => true
 
 def SInFragment : SStmt → Bool
@@ -429,16 +439,61 @@ def COp.eval : COp → Byte → Byte → Bool
   | .gt, a, b => decide (b.toNat < a.toNat)
   | .le, a, b => decide (a.toNat ≤ b.toNat)
 
-def evalCond (L : Layout) (m : SrcSt) : Cond → Bool
-  | .cmp op a b => op.eval (rval L m a) (rval L m b)
-  | .truth v => rval L m v.ra != 0
-  | .nottruth v => rval L m v.ra == 0
-  | .and a b => evalCond L m a && evalCond L m b
-  | .or a b => evalCond L m a || evalCond L m b
-  | .not c => !evalCond L m c
+/-- evaluating a condition: its truth value and the state it leaves behind. Conditions on atoms and on quiet trees
+    leave the state as it was; stage 13 adds conditions whose code uses the scratch cell. `&&` / `||` evaluate their
+    second operand in the state the first one left, and only when needed -/
+def condRun (L : Layout) (m : SrcSt) : Cond → Bool × SrcSt
+  | .cmp op a b => (op.eval (rval L m a) (rval L m b), m)
+  | .truth v => (rval L m v.ra != 0, m)
+  | .nottruth v => (rval L m v.ra == 0, m)
+  | .and a b => if (condRun L m a).1 then condRun L (condRun L m a).2 b else (false, (condRun L m a).2)
+  | .or a b => if (condRun L m a).1 then (true, (condRun L m a).2) else condRun L (condRun L m a).2 b
+  | .not c => (!(condRun L m c).1, (condRun L m c).2)
   | .cmpE op e b eLeft =>
-    if eLeft then op.eval (treeVal L m e) (val L m.mem m.x m.y b) else op.eval (val L m.mem m.x m.y b) (treeVal L m e)
-  | .truthE e => treeVal L m e != 0
+    let r := treeRun L m e
+    (if eLeft then op.eval r.1 (val L r.2.mem r.2.x r.2.y b) else op.eval (val L r.2.mem r.2.x r.2.y b) r.1, r.2)
+  | .truthE e => ((treeRun L m e).1 != 0, (treeRun L m e).2)
+  | .cmpR op e y eLeft =>
+    let r := treeRun L m e
+    let reg := if y then r.2.y else r.2.x
+    (if eLeft then op.eval r.1 reg else op.eval reg r.1, setTmp L r.2 r.1)
+
+def evalCond (L : Layout) (m : SrcSt) (c : Cond) : Bool := (condRun L m c).1
+/-- the state a condition leaves behind -/
+def condEff (L : Layout) (m : SrcSt) (c : Cond) : SrcSt := (condRun L m c).2
+
+section condLemmas
+variable (L : Layout) (m : SrcSt)
+theorem evalCond_cmp (op : COp) (a b : RA) : evalCond L m (.cmp op a b) = op.eval (rval L m a) (rval L m b) := rfl
+theorem evalCond_truth (v : LV) : evalCond L m (.truth v) = (rval L m v.ra != 0) := rfl
+theorem evalCond_nottruth (v : LV) : evalCond L m (.nottruth v) = (rval L m v.ra == 0) := rfl
+theorem evalCond_cmpE (op : COp) (e : GExpr) (b : Atom) (eLeft : Bool) : evalCond L m (.cmpE op e b eLeft) =
+    (if eLeft then op.eval (treeRun L m e).1 (val L (treeRun L m e).2.mem (treeRun L m e).2.x (treeRun L m e).2.y b)
+     else op.eval (val L (treeRun L m e).2.mem (treeRun L m e).2.x (treeRun L m e).2.y b) (treeRun L m e).1) := rfl
+theorem evalCond_truthE (e : GExpr) : evalCond L m (.truthE e) = ((treeRun L m e).1 != 0) := rfl
+theorem evalCond_cmpR (op : COp) (e : GExpr) (y eLeft : Bool) : evalCond L m (.cmpR op e y eLeft) =
+    (if eLeft then op.eval (treeRun L m e).1 (if y then (treeRun L m e).2.y else (treeRun L m e).2.x)
+     else op.eval (if y then (treeRun L m e).2.y else (treeRun L m e).2.x) (treeRun L m e).1) := rfl
+@[simp] theorem condEff_cmpR (op : COp) (e : GExpr) (y eLeft : Bool) : condEff L m (.cmpR op e y eLeft) =
+    setTmp L (treeRun L m e).2 (treeRun L m e).1 := rfl
+theorem evalCond_not (c : Cond) : evalCond L m (.not c) = !evalCond L m c := rfl
+theorem evalCond_and (a b : Cond) : evalCond L m (.and a b) = (evalCond L m a && evalCond L (condEff L m a) b) := by
+  simp only [evalCond, condEff, condRun]; split <;> simp_all
+theorem evalCond_or (a b : Cond) : evalCond L m (.or a b) = (evalCond L m a || evalCond L (condEff L m a) b) := by
+  simp only [evalCond, condEff, condRun]; split <;> simp_all
+@[simp] theorem condEff_cmp (op : COp) (a b : RA) : condEff L m (.cmp op a b) = m := rfl
+@[simp] theorem condEff_truth (v : LV) : condEff L m (.truth v) = m := rfl
+@[simp] theorem condEff_nottruth (v : LV) : condEff L m (.nottruth v) = m := rfl
+@[simp] theorem condEff_cmpE (op : COp) (e : GExpr) (b : Atom) (eLeft : Bool) : condEff L m (.cmpE op e b eLeft) = (treeRun L m e).2 := rfl
+@[simp] theorem condEff_truthE (e : GExpr) : condEff L m (.truthE e) = (treeRun L m e).2 := rfl
+@[simp] theorem condEff_not (c : Cond) : condEff L m (.not c) = condEff L m c := rfl
+theorem condEff_and (a b : Cond) : condEff L m (.and a b) =
+    (if evalCond L m a then condEff L (condEff L m a) b else condEff L m a) := by
+  simp only [evalCond, condEff, condRun]; split <;> simp_all
+theorem condEff_or (a b : Cond) : condEff L m (.or a b) =
+    (if evalCond L m a then condEff L m a else condEff L (condEff L m a) b) := by
+  simp only [evalCond, condEff, condRun]; split <;> simp_all
+end condLemmas
 
 /-- how a statement ends: normally, by `break`, by `continue` -/
 inductive Exit where | norm | brk | cont
@@ -455,26 +510,26 @@ def sem (L : Layout) : Nat → SrcSt → SStmt → Option Out
   | _ + 1, m, .forget => some (.norm, m)
   | _ + 1, m, .brk => some (.brk, m)
   | _ + 1, m, .cont => some (.cont, m)
-  | _ + 1, m, .ifBrk c => some (if evalCond L m c then .brk else .norm, m)
-  | _ + 1, m, .ifCont c => some (if evalCond L m c then .cont else .norm, m)
+  | _ + 1, m, .ifBrk c => some (if evalCond L m c then .brk else .norm, condEff L m c)
+  | _ + 1, m, .ifCont c => some (if evalCond L m c then .cont else .norm, condEff L m c)
   | f + 1, m, .seq a b =>
     (match sem L f m a with
      | some (.norm, m1) => sem L f m1 b
      | r => r)
-  | f + 1, m, .ifThen c t => if evalCond L m c then sem L f m t else some (.norm, m)
-  | f + 1, m, .ifElse c t e => if evalCond L m c then sem L f m t else sem L f m e
+  | f + 1, m, .ifThen c t => if evalCond L m c then sem L f (condEff L m c) t else some (.norm, condEff L m c)
+  | f + 1, m, .ifElse c t e => if evalCond L m c then sem L f (condEff L m c) t else sem L f (condEff L m c) e
   | f + 1, m, .while c b =>
     if evalCond L m c then
-      (match sem L f m b with
+      (match sem L f (condEff L m c) b with
        | none => none
        | some (.brk, m1) => some (.norm, m1)
        | some (_, m1) => sem L f m1 (.while c b))
-    else some (.norm, m)
+    else some (.norm, condEff L m c)
   | f + 1, m, .doWhile b c =>
     (match sem L f m b with
      | none => none
      | some (.brk, m1) => some (.norm, m1)
-     | some (_, m1) => if evalCond L m1 c then sem L f m1 (.doWhile b c) else some (.norm, m1))
+     | some (_, m1) => if evalCond L m1 c then sem L f (condEff L m1 c) (.doWhile b c) else some (.norm, condEff L m1 c))
   | f + 1, m, .for i c u b => semFor L c u b f (rspec L m i)
 
 /-- the loop of a `for` behind its initialisation: a `continue` in the body still runs the update -/
@@ -482,11 +537,11 @@ def semFor (L : Layout) (c : Cond) (u : RStmt) (b : SStmt) : Nat → SrcSt → O
   | 0, _ => none
   | f + 1, m =>
     if evalCond L m c then
-      (match sem L f m b with
+      (match sem L f (condEff L m c) b with
        | none => none
        | some (.brk, m1) => some (.norm, m1)
        | some (_, m1) => semFor L c u b f (rspec L m1 u))
-    else some (.norm, m)
+    else some (.norm, condEff L m c)
 end
 
 /-! ### the machine on emitted lines -/
